@@ -16,7 +16,9 @@ def run(ctx):
                 "through the public vocabulary; hand-encoded banana token stream): the children of the `arguments` sequence are a "
                 "conforming list, one single-point mutation of it (subtree of another type, boundary size +-1, forged INT/LONGINT "
                 "tokens, short/long tuples, empty boolean/unicode sequences, dangling dict key, missing/extra/duplicate/unknown "
-                "argument, positional<->keyword moves, back-reference to an earlier argument of another shape), or a hostile "
+                "argument, positional<->keyword moves, back-reference to an earlier argument of another shape), a unicode sequence whose "
+                "BODY is not UTF-8 (stray continuation byte, overlong, surrogate, > U+10FFFF, truncated, 0xFF) or non-ASCII text, in "
+                "every kind of slot as argument and as answer, a my-reference whose interface name / URL is such a byte string, or a hostile "
                 "FRAMING (count token larger / smaller than what follows, not an INT, missing; a value where a name is expected and "
                 "vice versa; a name without value; the sequence stopping anywhere), plus every required/Optional x positional-count "
                 "x keyword-subset binding of three arguments, plus targets whose RemoteInterface DERIVES from other RemoteInterfaces "
@@ -24,9 +26,12 @@ def run(ctx):
                 "one; 2 and 3 levels; every stream to a target of every level: the declaration of the most derived interface that "
                 "declares the method governs, judged by a reference that walks the chain itself); fed to a real Broker; "
                 "non-trivial = the stream reached the ArgumentUnslicer/AnswerUnslicer")
-    ctx.assumptions = ["text VALUES in wire trees are ASCII (keyword NAMES are arbitrary byte strings: not UTF-8 -> Violation, "
-                       "Schema.utf8_valid compared with Python's decoder); set elements / dict keys are distinct and hashable",
-                       "regexp constraints, FailureConstraint, Shared and their-reference gifts are outside the model; RemoteCopy state "
+    ctx.assumptions = ["the body of a unicode sequence, keyword / attribute / method / interface NAMES and reference URLs are arbitrary byte "
+                       "strings (Schema.utf8_valid / utf8_decode compared with Python's strict decoder on every run); a my-reference URL "
+                       "that IS text is checked against the peer's Tub identity (C05) and is not modelled (Schema.recv_myref: connection "
+                       "lost, which is what every URL but the sender's own FURL gets); set elements / dict keys are distinct and hashable",
+                       "regexp constraints, FailureConstraint, Shared and their-reference gifts are outside the model (the gift URL's decoding "
+                       "site is driven by the oracle only); RemoteCopy state "
                        "under an AttributeDictConstraint stateSchema and the whole `call` sequence (CallUnslicer stages) are modelled "
                        "(Schema.rc_run, Schema.recv_call_stream); RemoteInterface arguments: the receiver's side only (claimed "
                        "interface name vs declared), judged against `declared or a sub-interface`",
@@ -106,7 +111,6 @@ def mutate_value(S, vs, rng):
     r = rng.random()
     if r < 0.35:
         new = S.gen_any(rng, 1, hashable=True)
-        new = ascii_only(new)
     elif k == "i":
         new = ["i", rng.choice([2 ** 31, -2 ** 31 - 1, 2 ** 32, -(2 ** 32), 2 ** 64, 256 ** 8, x[1] + 1, -x[1], 2 ** 31 - 1])]
     elif k in ("b", "t"):
@@ -129,16 +133,6 @@ def mutate_value(S, vs, rng):
     else:
         new = ["i", 0]
     return put(vs, p, new)
-
-
-def ascii_only(vs):
-    if vs[0] == "t":
-        return ["t", [c if c < 128 else 120 for c in vs[1]]]
-    if vs[0] in ("l", "T", "s", "fs"):
-        return [vs[0], [ascii_only(x) for x in vs[1]]]
-    if vs[0] == "d":
-        return ["d", [[ascii_only(a), ascii_only(b)] for a, b in vs[1]]]
-    return vs
 
 
 def wpaths(ws, p=()):
@@ -206,7 +200,7 @@ def pend_case(S, rng, elem=None, shape=None):
     ITSELF (it is still open when the reference arrives: the receiver only has a Deferred for it) in a slot declared elem"""
     elem = elem or list(rng.choice(PEND_ELEMS))
     shape = shape or rng.choice(["list", "list", "dict", "list2", "tuple-list", "tuple-list-inner"])
-    pre = [S.slice_vs(S.canon_vs(ascii_only(S.gen_value(elem, rng)))) for _ in range(rng.randint(0, 2))]
+    pre = [S.slice_vs(S.canon_vs((S.gen_value(elem, rng)))) for _ in range(rng.randint(0, 2))]
     if shape == "list":
         return ["tuple", [["list", elem, None, 0]]], ["wo", "tuple", [["wo", "list", pre + [["wp", 1]]]]]
     if shape == "dict":
@@ -265,6 +259,69 @@ def open_ref_sweep(ctx, S, E, runner, is_call):
 def has_pend(ws):
     return ws[0] == "wp" or (ws[0] == "wo" and any(has_pend(x) for x in ws[2]))
 
+
+
+def _not_utf8(bs):
+    try:
+        bytes(bs).decode("utf-8")
+        return False
+    except (UnicodeDecodeError, ValueError):
+        return True
+
+
+def nontext_sites(ws):
+    """which decoding sites of a wire tree hold a byte string that is not UTF-8: {"body", "reference"}"""
+    out = set()
+    if isinstance(ws, list) and ws and ws[0] in ("wo", "wc"):
+        kids = ws[2]
+        if ws[1] == "unicode" and kids and kids[0][0] == "ws" and _not_utf8(kids[0][3]):
+            out.add("body")
+        if ws[1] in ("my-reference", "their-reference") and any(k[0] == "ws" and _not_utf8(k[3]) for k in kids[1:3]):
+            out.add("reference")
+        for k in kids:
+            out |= nontext_sites(k)
+    return out
+
+
+def decode_error_failure(ctx, errs, trees, case, what):
+    """the connection died of a UnicodeDecodeError: which member of the six.ensure_str / decode family was it?"""
+    sites = set()
+    for t in trees:
+        sites |= nontext_sites(t)
+    if "reference" in sites:
+        ctx.fail("oracle/non-utf8-reference-name-drops-connection", "a my-reference / their-reference sequence whose interface name or URL "
+                 "is not valid UTF-8 raised UnicodeDecodeError in six.ensure_str (referenceable.py ReferenceUnslicer / "
+                 "TheirReferenceUnslicer.receiveChild): the whole connection was lost instead of that one %s failing with a Violation: "
+                 "%s; receive error %r" % (what, str(case)[:700], errs), replay=case)
+    elif "body" in sites:
+        ctx.fail("oracle/non-utf8-text-body-drops-connection", "an OPEN unicode sequence whose STRING body is not valid UTF-8 raised "
+                 "UnicodeDecodeError in UnicodeUnslicer.receiveChild (obj.decode('UTF-8')): the whole connection was lost instead of "
+                 "that one %s failing with a Violation: %s; receive error %r" % (what, str(case)[:700], errs), replay=case)
+    else:
+        ctx.fail("oracle/non-utf8-keyword-name-drops-connection", "a STRING token that is not valid UTF-8, standing where "
+                 "ArgumentUnslicer expects a keyword NAME, raised UnicodeDecodeError in six.ensure_str(token): the whole connection "
+                 "was lost instead of that one call failing with a Violation ('unknown argument'): %s; receive error %r"
+                 % (str(case)[:600], errs), replay=case)
+
+
+_noted = []
+
+
+def note_url_not_a_furl(ctx, errs, case):
+    """NOT a known finding (reported to the lead, kept as a note): a my-reference URL that is text but no FURL at all makes
+    SturdyRef(url) raise ValueError / BadFURLError in RemoteReferenceTracker.__init__; it escapes dataReceived like the by-design
+    BananaError for a foreign tubid does, so the effect is the same (connection lost), but through an unintended exception"""
+    if not _noted and any(e.startswith(("ValueError", "BadFURLError")) for e in errs):
+        _noted.append(1)
+        ctx.note("oracle/reference-url-not-a-furl-drops-connection (note, not a listed finding): a my-reference whose URL is text but not a "
+                 "FURL raised %s out of dataReceived (RemoteReferenceTracker.__init__: SturdyRef(url)); minimal input: my-reference clid 90, "
+                 "name b'RIVBase', url b'pb:'; smallest repair: except (ValueError, BadFURLError) -> BananaError next to the tubid test"
+                 % (errs[0][:60],))
+
+
+# a text URL in a my-reference is parsed and compared with the peer's Tub identity: connection lost by design (BananaError
+# "inbound reference claims bad tubid", C05) -- or through an escaping ValueError / BadFURLError when it is no FURL at all
+URL_CHECK_ERRORS = ("unknown FURL prefix", "inbound reference claims bad tubid", "is not a valid tubid", "BadFURLError", "remote_tubref")
 
 # --------------------------------------------------------------------------------------------------------------- calls
 def classify_dead(ctx, w, family, case, what):
@@ -394,11 +451,12 @@ def run_call(ctx, S, E, tag, family, argspec, pos, kws, vocab=0, direct=None, pe
     elif not w.alive():
         rec["outcome"] = "dead-dupkey" if any("duplicate key" in e for e in w.recv_errors) else "dead"
         if w.recv_errors and all(e.startswith("UnicodeDecodeError") for e in w.recv_errors):
-            # the defect repaired by commit 0c0affc (model: au_nontext_name_violation = false gives "connection lost" too)
-            ctx.fail("oracle/non-utf8-keyword-name-drops-connection", "a STRING token that is not valid UTF-8, standing where "
-                     "ArgumentUnslicer expects a keyword NAME, raised UnicodeDecodeError in six.ensure_str(token): the whole connection "
-                     "was lost instead of that one call failing with a Violation ('unknown argument'): %s; receive error %r"
-                     % (str(case)[:600], w.recv_errors), replay=case)
+            # the family repaired by 0c0affc / bc46263 / 66cc69a (the model's *_nontext_*_violation = false gives "connection
+            # lost" too); the reference name / URL sites are not repaired (known finding)
+            decode_error_failure(ctx, w.recv_errors, items, case, "call")
+        elif family == "reference-url" and w.recv_errors and all(any(m in e for m in URL_CHECK_ERRORS) for e in w.recv_errors):
+            ctx.hist("reference_url_check", w.recv_errors[0][:50])
+            note_url_not_a_furl(ctx, w.recv_errors, case)
         elif flags == "__ignoreUnknown__" and w.recv_errors and all(e.startswith("AssertionError") for e in w.recv_errors):
             ctx.fail("oracle/ignore-unknown-drops-connection", "a keyword argument the schema does not declare, sent to a method "
                      "whose RemoteMethodSchema says __ignoreUnknown__=True, tripped `assert accept` in ArgumentUnslicer.receiveChild: "
@@ -473,6 +531,86 @@ NONTEXT_NAMES = [[168, 97], [192, 128], [193, 191], [224, 159, 191], [237, 160, 
                  [97, 195], [226, 130], [240, 159, 152], [255], [97, 128], [240, 143, 191, 191]]
 TEXT_NAMES = [[195, 169], [194, 128], [223, 191], [224, 160, 128], [237, 159, 191], [238, 128, 128], [239, 191, 191],
               [240, 144, 128, 128], [244, 143, 191, 191], [226, 130, 172, 97]]
+
+
+def nontext_value_cases(S):
+    """OPEN unicode sequences whose BODY is every byte string of NONTEXT_NAMES (refused by Python's strict decoder: stray
+    continuation byte, overlong forms, a surrogate, beyond U+10FFFF, truncated sequences, 0xFF) and of TEXT_NAMES (non-ASCII
+    text at the 2-, 3-, 4-byte boundaries), in every kind of slot that admits text: bare (str / maxLength / Any), first and
+    last member of a list, tuple member, dict value and key, set member, two levels down, by keyword, Optional, followed by a
+    second string.  A body that is not UTF-8 must fail that one call with a Violation; one that is must arrive decoded.
+    -> [(argspec, pos wires, kw wires)]"""
+    out = []
+    st, i1 = ["py", "str"], ["wi", "INT", 1, 1]
+    ok = S.slice_vs(["t", [111, 107]])
+    A = lambda cs, opt=False: [("a", cs, opt)]
+    FULL = NONTEXT_NAMES[:4] + TEXT_NAMES[:2]            # every slot for these, the bare slot + two rotating ones for the rest
+    for j, body in enumerate(NONTEXT_NAMES + TEXT_NAMES):
+        t = ["wo", "unicode", [["ws", False, len(body), list(body)]]]
+        n = len(body)
+        slots = [
+            (A(st), [t], []), (A(["text", n, 0]), [t], []), (A(["any"]), [t], []),
+            (A(["list", st, 3, 0]), [["wo", "list", [t, ok]]], []), (A(["list", ["text", n, 0], None, 0]), [["wo", "list", [ok, t]]], []),
+            (A(["tuple", [["py", "int"], st]]), [["wo", "tuple", [i1, t]]], []),
+            (A(["dict", ["py", "bytes"], st, None]), [["wo", "dict", [["ws", False, 1, [107]], t]]], []),
+            (A(["dict", st, ["py", "int"], 2]), [["wo", "dict", [t, i1]]], []),
+            (A(["set", st, None, True]), [["wo", "set", [t]]], []),
+            (A(["any"]), [["wo", "list", [["wo", "dict", [["ws", False, 1, [107]], ["wo", "tuple", [t]]]]]]], []),
+            ([("a", ["py", "int"], False), ("b", st, False)], [i1], [["b", t]]),
+            ([("a", ["py", "int"], False), ("b", st, True)], [i1, t], []),
+            (A(st), [["wo", "unicode", [["ws", False, len(body), list(body)], ["ws", False, 1, [97]]]]], []),
+        ]
+        out += slots if body in FULL else [slots[0], slots[1 + (2 * j) % 12], slots[1 + (2 * j + 1) % 12]]
+    return out
+
+
+def nontext_value_answers(S):
+    """the same bodies as RESULT: bare, under maxLength, in a list, as a dict value, under Any.  -> [(cs, ws)]"""
+    out = []
+    st = ["py", "str"]
+    FULL = NONTEXT_NAMES[:4] + TEXT_NAMES[:2]
+    for j, body in enumerate(NONTEXT_NAMES + TEXT_NAMES):
+        t = ["wo", "unicode", [["ws", False, len(body), list(body)]]]
+        slots = [(st, t), (["text", len(body), 0], t), (["any"], t), (["list", st, None, 0], ["wo", "list", [S.slice_vs(["t", [97]]), t]]),
+                 (["dict", ["py", "bytes"], st, None], ["wo", "dict", [["ws", False, 1, [107]], t]]),
+                 (["any"], ["wo", "tuple", [t, ["wi", "INT", 1, 1]]])]
+        out += slots if body in FULL else [slots[0], slots[1 + j % 5]]
+    return out
+
+
+def nontext_reference_cases(S):
+    """my-reference sequences whose interface NAME / URL is a byte string of NONTEXT_NAMES[:4] / TEXT_NAMES[:2], under Any, under
+    RemoteInterfaceConstraint(None), in a list, as a dict value.  (A text name is a claim like any other: unregistered.)
+    -> [(family, argspec, pos wires)]"""
+    out = []
+    A = lambda cs: [("a", cs, False)]
+    ri = [82, 73, 86, 66, 97, 115, 101]            # RIVBase
+    for k, bs in enumerate(NONTEXT_NAMES[:4] + TEXT_NAMES[:2]):
+        nm_ = ["wo", "my-reference", [["wi", "INT", 40 + k, 40 + k], ["ws", False, len(bs), list(bs)]]]
+        url = ["wo", "my-reference", [["wi", "INT", 60 + k, 60 + k], ["ws", False, len(ri), ri], ["ws", False, len(bs), list(bs)]]]
+        fam_url = "reference-name" if _not_utf8(bs) else "reference-url"
+        out += [("reference-name", A(["any"]), [nm_]), ("reference-name", A(["remote", None]), [nm_]),
+                ("reference-name", A(["list", ["any"], None, 0]), [["wo", "list", [["wi", "INT", 1, 1], nm_]]]),
+                ("reference-name", A(["dict", ["py", "bytes"], ["any"], None]), [["wo", "dict", [["ws", False, 1, [107]], nm_]]]),
+                (fam_url, A(["any"]), [url]), (fam_url, A(["remote", "RIVBase"]), [url])]
+    # text URLs that are no FURL / name another Tub: connection lost by the identity check (not a schema question; not modelled)
+    for u in (b"pb:", b"pb://qqqqqqqqqqqqqqqqqqqqqqqqqqqqqqqq@127.0.0.1:1/x"):
+        out.append(("reference-url", A(["any"]), [["wo", "my-reference", [["wi", "INT", 90, 90], ["ws", False, len(ri), ri], ["ws", False, len(u), list(u)]]]]))
+    return out
+
+
+def their_reference_cases(ctx, S, E):
+    """their-reference (gift) sequences whose URL is not UTF-8: TheirReferenceUnslicer.receiveChild decodes it with
+    six.ensure_str as well (gifts are outside the Coq model and a loopback Broker has no Tub to fetch a gift: oracle only,
+    judged by the exception that reaches reportReceiveError)"""
+    for bs in NONTEXT_NAMES[:5]:
+        ws = ["wo", "their-reference", [["wi", "INT", 7, 7], ["ws", False, len(bs), list(bs)]]]
+        res, w = S.call_trial(["a"], [S.schema.Any()], [ws], [])
+        case = dict(tag="their-reference", items=[ws])
+        ctx.case(["their-reference", bs], nontrivial=True)
+        ctx.hist("their_reference_outcome", "dead: " + (w.recv_errors[0][:40] if w.recv_errors else "?") if not w.alive() else S.outcome_of(res)[0])
+        if not w.alive() and w.recv_errors and all(e.startswith("UnicodeDecodeError") for e in w.recv_errors):
+            decode_error_failure(ctx, w.recv_errors, [ws], case, "call")
 
 
 def framing_cases(S):
@@ -935,7 +1073,7 @@ def call_cases(ctx, S, E):
         inh = w.get("inherit")
         r = guarded(ctx, run_call, S, E, "corpus:" + os.path.basename(p), w.get("family", "corpus"),
                     effective_argspec(inh) if inh else [tuple(x) for x in w["argspec"]],
-                    w.get("pos", []), w.get("kws", []), w.get("vocab", 0), None, None, raw, w.get("flags"), inh)
+                    w.get("pos", []), w.get("kws", []), w.get("vocab", 0), w.get("direct"), w.get("per_instance"), raw, w.get("flags"), inh)
         if r and w.get("expect") and r["outcome"] != w["expect"]:
             ctx.fail("oracle/regression-" + os.path.basename(p)[:-5], "corpus witness %s: expected %s, got %s" % (p, w["expect"], r["outcome"]), replay=w)
         recs.append(r)
@@ -974,7 +1112,7 @@ def call_cases(ctx, S, E):
         for j in range(nargs):
             cs = S.gen_cs(rng, rng.choice([1, 2, 2]), opener_choice=False)
             argspec.append((NAMES[j], cs, j > 0 and rng.random() < 0.3))
-        vals = [S.canon_vs(ascii_only(S.gen_value(cs, rng))) for _, cs, _ in argspec]
+        vals = [S.canon_vs((S.gen_value(cs, rng))) for _, cs, _ in argspec]
         npos = rng.randint(0, nargs)
         family = rng.choice(["none", "value", "value", "value", "wire", "wire", "missing", "extra", "duplicate", "unknown", "ref",
                              "pend"])
@@ -986,7 +1124,7 @@ def call_cases(ctx, S, E):
         if family == "value":
             for _ in range(5):
                 try:
-                    vals[j] = S.canon_vs(ascii_only(mutate_value(S, vals[j], rng)))
+                    vals[j] = S.canon_vs((mutate_value(S, vals[j], rng)))
                     break
                 except TypeError:          # a mutation made a set element / dict key unhashable: try another
                     continue
@@ -1025,6 +1163,12 @@ def call_cases(ctx, S, E):
         # of the same method stands above or below the one in force
         inh = wrap_in_chain(S, argspec, irng) if irng.random() < 0.12 else None
         recs.append(guarded(ctx, run_call, S, E, "gen", family, argspec, pos, kws, vocab, None, None, None, None, inh))
+    # bodies / reference names / URLs that are not UTF-8 (fixed sweeps; they draw nothing from the random stream)
+    for i, (argspec, pos, kws) in enumerate(nontext_value_cases(S)):
+        recs.append(guarded(ctx, run_call, S, E, "nontext-body", "nontext-body", argspec, pos, kws, i % 2, i % 3 == 0, False))
+    for i, (fam, argspec, pos) in enumerate(nontext_reference_cases(S)):
+        recs.append(guarded(ctx, run_call, S, E, fam, fam, argspec, pos, [], 0, i % 2 == 0, False))
+    guarded(ctx, lambda ctx_, S_, E_: their_reference_cases(ctx_, S_, E_), S, E)
     return [r for r in recs if r]
 
 
@@ -1116,7 +1260,13 @@ def run_answer(ctx, S, E, tag, family, cs, ws, vocab=0, via=None):
                      "(hand-built answer %s)" % (rec["value"], cs, str(ws)[:300]), replay=case)
     elif not w.alive():
         rec["outcome"] = "dead-dupkey" if any("duplicate key" in e for e in w.recv_errors) else "dead"
-        classify_dead(ctx, w, family, case, "answer")
+        if w.recv_errors and all(e.startswith("UnicodeDecodeError") for e in w.recv_errors):
+            decode_error_failure(ctx, w.recv_errors, [ws], case, "answer")
+        elif family == "reference-url" and w.recv_errors and all(any(m in e for m in URL_CHECK_ERRORS) for e in w.recv_errors):
+            ctx.hist("reference_url_check", w.recv_errors[0][:50])
+            note_url_not_a_furl(ctx, w.recv_errors, case)
+        else:
+            classify_dead(ctx, w, family, case, "answer")
     elif out[0] == "pending":
         rec["outcome"] = "pending"
         ctx.fail("oracle/answer-lost", "neither callback nor errback after the answer sequence: %r" % (case,), replay=case)
@@ -1181,7 +1331,7 @@ def answer_cases(ctx, S, E):
             recs.append(guarded(ctx, run_answer, S, E, "pend-sweep", "pend", cs, ws))
     for i in range(ctx.n(230, 4000)):
         cs = S.gen_cs(rng, rng.choice([0, 1, 2, 2]), opener_choice=False)
-        v = S.canon_vs(ascii_only(S.gen_value(cs, rng)))
+        v = S.canon_vs((S.gen_value(cs, rng)))
         family = rng.choice(["none", "value", "value", "wire", "wire", "pend"])
         if family == "pend":
             cs, ws = pend_case(S, rng)
@@ -1190,7 +1340,7 @@ def answer_cases(ctx, S, E):
         if family == "value":
             for _ in range(5):
                 try:
-                    v = S.canon_vs(ascii_only(mutate_value(S, v, rng)))
+                    v = S.canon_vs((mutate_value(S, v, rng)))
                     break
                 except TypeError:
                     continue
@@ -1199,6 +1349,11 @@ def answer_cases(ctx, S, E):
         if family == "wire":
             ws, family = mutate_wire(S, ws, rng)
         recs.append(guarded(ctx, run_answer, S, E, "gen", family, cs, ws, vocab))
+    for i, (cs, ws) in enumerate(nontext_value_answers(S)):
+        recs.append(guarded(ctx, run_answer, S, E, "nontext-body", "nontext-body", cs, ws, i % 2, VIAS[i % 4]))
+    bad = ["wo", "my-reference", [["wi", "INT", 33, 33], ["ws", False, 2, [168, 97]]]]
+    for i, (cs, ws) in enumerate([(["any"], bad), (["remote", None], bad), (["list", ["any"], None, 0], ["wo", "list", [bad]])]):
+        recs.append(guarded(ctx, run_answer, S, E, "reference-name", "reference-name", cs, ws, 0, VIAS[i % 4]))
     return [r for r in recs if r]
 
 
@@ -1285,9 +1440,13 @@ Eval vm_compute in map (fun x => let '(ms, items, ea, ek) := x in
     # is-this-text: Schema.utf8_valid against Python's strict decoder, on the boundary byte strings and random ones
     samples = NONTEXT_NAMES + TEXT_NAMES + [[ctx.rng.choice([97, 128, 191, 192, 194, 223, 224, 237, 239, 240, 244, 245, 159, 160, 143, 144])
                                              for _ in range(ctx.rng.randint(1, 5))] for _ in range(ctx.n(150, 2000))]
-    body = "Local Open Scope Z_scope.\nEval vm_compute in map utf8_valid %s.\n" % coq_list([S.coq_zlist(b) for b in samples])
+    # ... plus honest encodings of random text (so that the accepted side is well covered), and what an accepted body decodes to
+    samples += [list("".join(chr(ctx.rng.choice([97, 127, 128, 233, 2047, 2048, 8364, 0xD7FF, 0xE000, 0xFFFF, 0x10000, 0x1F600, 0x10FFFF]))
+                             for _ in range(ctx.rng.randint(0, 4))).encode("utf-8")) for _ in range(ctx.n(60, 600))]
+    body = ("Local Open Scope Z_scope.\nDefinition samples := %s.\nEval vm_compute in map utf8_valid samples.\n"
+            "Eval vm_compute in map (fun b => if utf8_valid b then utf8_decode b else []) samples.\n" % coq_list([S.coq_zlist(b) for b in samples]))
     try:
-        (vals,) = ctx.coq_eval("C02_utf8", body, requires=REQ)
+        vals, decs = ctx.coq_eval("C02_utf8", body, requires=REQ)
     except common.CoqEvalError as e:
         bad("broken", "the model could not be evaluated: " + str(e)[-1500:], None)
         return
@@ -1300,6 +1459,14 @@ Eval vm_compute in map (fun x => let '(ms, items, ea, ek) := x in
             real = False
         if m != real:
             bad("utf8_valid", "model utf8_valid %r = %r, bytes.decode('utf-8') %s" % (b, m, "succeeds" if real else "raises"), dict(bytes=b))
+    for b, d in zip(samples, decs):
+        try:
+            want = [ord(ch) for ch in bytes(b).decode("utf-8")]
+        except UnicodeDecodeError:
+            continue
+        ctx.traces += 1
+        if list(d) != want:
+            bad("utf8_decode", "model utf8_decode %r = %r, bytes.decode('utf-8') gives %r" % (b, d, want), dict(bytes=b))
     ACODE = {"callback": 1, "errback": 2, "dead": 3}
     for lo in range(0, len(answers), 300):
         chunk = [r for r in answers[lo:lo + 300] if r["outcome"] in ACODE]
